@@ -262,6 +262,25 @@ func (i *interpreter) conv(tDst, tSrc types.Type, x value) value {
 				return bytesToStr(x.([]value))
 			}
 		}
+		if b, ok := sl.Elem().Underlying().(*types.Basic); ok && b.Kind() == types.Rune && hasSymElem(x.([]value)) {
+			// string([]rune) with symbolic runes: ASCII runes become bytes
+			var out []value
+			for _, e := range x.([]value) {
+				switch r := e.(type) {
+				case int32:
+					for _, c := range []byte(string(rune(r))) {
+						out = append(out, c)
+					}
+				case sym:
+					ascii := i.tc.Cmp("bvult", r.t, i.tc.Const(32, utf8.RuneSelf))
+					if !i.decide(ascii, "rune-ascii") {
+						panic(unsupported("string([]rune) with a symbolic non-ASCII rune"))
+					}
+					out = append(out, mkVal(i.tc.Extract(7, 0, r.t), types.Uint8))
+				}
+			}
+			return bytesToStr(out)
+		}
 	}
 	if up, ok := x.(unsafePtr); ok {
 		if _, ok := utDst.(*types.Pointer); ok {
@@ -723,4 +742,13 @@ func roundupsize(size uintptr) uintptr {
 	// large: round up to page size
 	const page = 8192
 	return (size + page - 1) &^ (page - 1)
+}
+
+func hasSymElem(v []value) bool {
+	for _, e := range v {
+		if _, ok := e.(sym); ok {
+			return true
+		}
+	}
+	return false
 }
